@@ -24,6 +24,7 @@ func init() {
 			// safety half of the statement ("no page an open reader references is reusable"): pending pages become
 			// free only through the release path, and the free set is replaced only by the pending-aware reload
 			ruleFreeSetEntry(c, "C10.R7")
+			ruleAllocatePrefersFreeList(c, "C10.R8")
 		},
 		CHA: func(c *Ctx) { ruleFreeSetEntry(c, "C10.R7") },
 	})
